@@ -394,12 +394,15 @@ type fnSig struct {
 var primTable map[string]fnSig
 
 var streamPrims = map[string]fnSig{
-	"k.GetStream":    {coq: "str_GetStream", reads: true, results: []gtype{"S:Stream", tBool}, dropCtx: true},
-	"k.IsStream":     {coq: "str_IsStream", reads: true, results: []gtype{tBool}, dropCtx: true},
-	"k.GetParams":    {coq: "str_GetParams", reads: true, results: []gtype{"S:Params"}, dropCtx: true},
-	"k.SetStream":    {coq: "str_SetStream", stateful: true, impure: true, hasErr: true, dropCtx: true},
-	"k.DeleteStream": {coq: "str_DeleteStream", stateful: true, impure: true, dropCtx: true},
-	"k.SetParams":    {coq: "str_SetParams", stateful: true, impure: true, hasErr: true, dropCtx: true},
+	"k.GetStreamModuleAccount":                  {coq: "str_GetStreamModuleAccount", reads: true, results: []gtype{tModAcc}, dropCtx: true},
+	"k.bankKeeper.GetAllBalances":               {coq: "bank_GetAllBalances", reads: true, results: []gtype{tCoins}, dropCtx: true},
+	"k.accKeeper.SetModuleAccount":              {coq: "acc_SetModuleAccount", stateful: true, impure: true, dropCtx: true},
+	"k.GetStream":                               {coq: "str_GetStream", reads: true, results: []gtype{"S:Stream", tBool}, dropCtx: true},
+	"k.IsStream":                                {coq: "str_IsStream", reads: true, results: []gtype{tBool}, dropCtx: true},
+	"k.GetParams":                               {coq: "str_GetParams", reads: true, results: []gtype{"S:Params"}, dropCtx: true},
+	"k.SetStream":                               {coq: "str_SetStream", stateful: true, impure: true, hasErr: true, dropCtx: true},
+	"k.DeleteStream":                            {coq: "str_DeleteStream", stateful: true, impure: true, dropCtx: true},
+	"k.SetParams":                               {coq: "str_SetParams", stateful: true, impure: true, hasErr: true, dropCtx: true},
 	"k.bankKeeper.SendCoinsFromModuleToModule":  {coq: "bank_SendCoinsFromModuleToModule", stateful: true, impure: true, hasErr: true, dropCtx: true},
 	"k.bankKeeper.SendCoinsFromModuleToAccount": {coq: "bank_SendCoinsFromModuleToAccount", stateful: true, impure: true, hasErr: true, dropCtx: true},
 	"k.bankKeeper.SendCoinsFromAccountToModule": {coq: "bank_SendCoinsFromAccountToModule", stateful: true, impure: true, hasErr: true, dropCtx: true},
@@ -431,6 +434,9 @@ var kMethodTable = map[methodKey]fnSig{
 	{tAddr, "String"}:       {coq: "Addr_String", results: []gtype{tAddrStr}},
 	{tAddr, "Empty"}:        {coq: "Addr_Empty", results: []gtype{tBool}},
 	{tAddr, "Equals"}:       {coq: "Addr_Equals", results: []gtype{tBool}},
+	{tDec, "IsNil"}:         {coq: "Dec_IsNil", results: []gtype{tBool}},
+	{tDec, "IsNegative"}:    {coq: "Dec_IsNegative", results: []gtype{tBool}},
+	{tDec, "GT"}:            {coq: "Dec_GT", results: []gtype{tBool}},
 	{tCoin, "IsValid"}:      {coq: "Coin_IsValid", results: []gtype{tBool}},
 	{tCoins, "AmountOf"}:    {coq: "Coins_AmountOf", results: []gtype{tInt}},
 	{tCoins, "Find"}:        {coq: "Coins_Find", results: []gtype{tBool, tCoin}},
@@ -560,26 +566,27 @@ var modules = map[string]*moduleSpec{
 			"ProcessAcceptedPurchaseOrders", "TallyPurchaseOrderDecisions",
 			"RaiseNewPurchaseOrder", "IsAuthorisedToDecide", "ProcessPurchaseOrderDecision", "ProcessWhitelistAction",
 			"UndPurchaseOrder", "ProcessUndPurchaseOrder", "WhitelistAddress", "UpdateParams", "InitGenesis", "ExportGenesis"},
-		typeFuncs: [][2]string{{"purchase_order_status.go", "ValidPurchaseOrderAcceptRejectStatus"}, {"whitelist_action.go", "ValidWhitelistAction"}},
-		msgTypes:  []string{"MsgUndPurchaseOrder", "MsgProcessUndPurchaseOrder", "MsgWhitelistAddress"},
-		prims:     enterprisePrims, consts: map[string]constDef{"types.ModuleName": {"MOD_enterprise", tModName}, "k.authority": {"KEEPER_authority", tAddrStr}}, world: "eworld",
+		typeFuncs: [][2]string{{"purchase_order_status.go", "ValidPurchaseOrderAcceptRejectStatus"}, {"whitelist_action.go", "ValidWhitelistAction"},
+			{"params.go", "validateDenom"}, {"params.go", "validateMinAccepts"}, {"params.go", "validateDecisionLimit"}, {"params.go", "validateEntSigners"}, {"params.go", "Params.Validate"}},
+		msgTypes: []string{"MsgUndPurchaseOrder", "MsgProcessUndPurchaseOrder", "MsgWhitelistAddress"},
+		prims:    enterprisePrims, consts: map[string]constDef{"types.ModuleName": {"MOD_enterprise", tModName}, "k.authority": {"KEEPER_authority", tAddrStr}}, world: "eworld",
 		imports:  "lib.Prelude lib.GoSdk GeneratedEnterpriseTypes model.EnterpriseKeeperPrims",
 		typesMod: "GeneratedEnterpriseTypes", keeperMod: "GeneratedEnterpriseKeeper", listName: "enterprise_keeper_other_functions"},
-	"stream": {name: "stream", pbFiles: []string{"params.pb.go", "stream.pb.go", "tx.pb.go"}, goFiles: []string{"stream.go", "msg_server.go"},
+	"stream": {name: "stream", typeFuncs: [][2]string{{"params.go", "validateBaseValidatorFee"}, {"params.go", "Params.Validate"}}, pbFiles: []string{"params.pb.go", "stream.pb.go", "tx.pb.go", "genesis.pb.go"}, goFiles: []string{"stream.go", "msg_server.go", "genesis.go"},
 		want: []string{"addSeconds", "ClaimFromStream", "AddDeposit", "SetNewFlowRate", "CancelStreamBySenderReceiver",
-			"CreateNewStream", "CreateStream", "ClaimStream", "TopUpDeposit", "UpdateFlowRate", "CancelStream", "UpdateParams"},
+			"CreateNewStream", "CreateStream", "ClaimStream", "TopUpDeposit", "UpdateFlowRate", "CancelStream", "UpdateParams", "InitGenesis"},
 		prims: streamPrims, consts: streamConsts, world: "kworld",
 		imports:  "lib.Prelude lib.GoSdk GeneratedFns GeneratedStreamTypes model.StreamKeeperPrims",
 		typesMod: "GeneratedStreamTypes", keeperMod: "GeneratedStreamKeeper", listName: "stream_keeper_other_functions",
 		msgTypes: []string{"MsgCreateStream", "MsgClaimStream", "MsgTopUpDeposit", "MsgUpdateFlowRate", "MsgCancelStream"}},
-	"wrkchain": {name: "wrkchain", pbFiles: []string{"wrkchain.pb.go", "tx.pb.go", "genesis.pb.go"}, rootFiles: []string{"genesis.go"}, typeFuncs: [][2]string{{"genesis.go", "NewGenesisState"}}, goFiles: []string{"register.go", "record.go", "msg_server.go"},
+	"wrkchain": {name: "wrkchain", pbFiles: []string{"wrkchain.pb.go", "tx.pb.go", "genesis.pb.go"}, rootFiles: []string{"genesis.go"}, typeFuncs: [][2]string{{"params.go", "validateFeeDenom"}, {"params.go", "validateFeeRegister"}, {"params.go", "validateFeeRecord"}, {"params.go", "validateFeePurchaseStorage"}, {"params.go", "validateDefaultStorageLimit"}, {"params.go", "validateMaxStorageLimit"}, {"params.go", "Params.Validate"}, {"genesis.go", "NewGenesisState"}}, goFiles: []string{"register.go", "record.go", "msg_server.go"},
 		want: []string{"QuickCheckHeightIsNew", "GetMaxPurchasableSlots", "IncreaseInStateStorage", "RegisterNewWrkChain", "RecordNewWrkchainHashes",
 			"RegisterWrkChain", "RecordWrkChainBlock", "PurchaseWrkChainStateStorage", "UpdateParams", "InitGenesis", "ExportGenesis"},
 		prims: registryPrims("WrkChain", "WrkChainBlock"), consts: registryConsts, world: "rworld",
 		imports:  "lib.Prelude lib.GoSdk GeneratedWrkchainTypes model.WrkchainKeeperPrims",
 		typesMod: "GeneratedWrkchainTypes", keeperMod: "GeneratedWrkchainKeeper", listName: "wrkchain_keeper_other_functions",
 		msgTypes: []string{"MsgRegisterWrkChain", "MsgRecordWrkChainBlock", "MsgPurchaseWrkChainStateStorage"}},
-	"beacon": {name: "beacon", pbFiles: []string{"beacon.pb.go", "tx.pb.go", "genesis.pb.go"}, rootFiles: []string{"genesis.go"}, typeFuncs: [][2]string{{"genesis.go", "NewGenesisState"}}, goFiles: []string{"register.go", "record.go", "msg_server.go"},
+	"beacon": {name: "beacon", pbFiles: []string{"beacon.pb.go", "tx.pb.go", "genesis.pb.go"}, rootFiles: []string{"genesis.go"}, typeFuncs: [][2]string{{"params.go", "validateFeeDenom"}, {"params.go", "validateFeeRegister"}, {"params.go", "validateFeeRecord"}, {"params.go", "validateFeePurchaseStorage"}, {"params.go", "validateDefaultStorageLimit"}, {"params.go", "validateMaxStorageLimit"}, {"params.go", "Params.Validate"}, {"genesis.go", "NewGenesisState"}}, goFiles: []string{"register.go", "record.go", "msg_server.go"},
 		want: []string{"GetMaxPurchasableSlots", "IncreaseInStateStorage", "RegisterNewBeacon", "RecordNewBeaconTimestamp",
 			"RegisterBeacon", "RecordBeaconTimestamp", "PurchaseBeaconStateStorage", "UpdateParams", "InitGenesis", "ExportGenesis"},
 		prims: registryPrims("Beacon", "BeaconTimestamp"), consts: registryConsts, world: "rworld",
@@ -628,8 +635,16 @@ func (kt *kTrans) callName(fun ast.Expr) string {
 	return n
 }
 
+var commonPrims = map[string]fnSig{
+	"math.LegacyOneDec": {coq: "Dec_One", results: []gtype{tDec}},
+	"sdk.ValidateDenom": {coq: "sdk_ValidateDenom", impure: true, hasErr: true},
+}
+
 func (kt *kTrans) lookup(name string) (fnSig, bool) {
 	if s, ok := primTable[name]; ok {
+		return s, true
+	}
+	if s, ok := commonPrims[name]; ok {
 		return s, true
 	}
 	if !strings.Contains(name, ".") {
@@ -748,6 +763,9 @@ func (kt *kTrans) expr(e ast.Expr) (pre []kbinding, val string, typ gtype) {
 		if ty == tUnit && len(t.Elts) == 0 {
 			return nil, "tt", tUnit
 		}
+		if ty == tCoins && len(t.Elts) == 0 {
+			return nil, "[]", tCoins
+		}
 		if ty == tCoin && len(t.Elts) == 0 {
 			return nil, "go_zero_coin", tCoin
 		}
@@ -823,6 +841,13 @@ func (kt *kTrans) expr(e ast.Expr) (pre []kbinding, val string, typ gtype) {
 		pre = append(append(p1, p2...), kbinding{tn, "(go_index " + l + " " + i + ")"})
 		return pre, tn, elemOf(lty)
 	case *ast.BinaryExpr:
+		if ce, ok := t.X.(*ast.CallExpr); ok && exprName(ce.Fun) == "strings.TrimSpace" && len(ce.Args) == 1 && exprName(t.Y) == "\"\"" && t.Op == token.EQL {
+			p, v, ty := kt.expr(ce.Args[0])
+			if ty != tDenom {
+				kt.fail("strings.TrimSpace of %s", ty)
+			}
+			return p, "(Denom_IsBlank " + v + ")", tBool
+		}
 		p1, a, ta := kt.expr(t.X)
 		p2, b, tb := kt.expr(t.Y)
 		pre = append(p1, p2...)
@@ -907,6 +932,9 @@ func (kt *kTrans) expr(e ast.Expr) (pre []kbinding, val string, typ gtype) {
 			p, v, ty := kt.expr(t.Args[0])
 			if isList(ty) {
 				return p, "(go_len_list " + v + ")", tInt64
+			}
+			if ty == tSigners {
+				return p, "(Signers_strlen " + v + ")", tInt64
 			}
 			if ty != tStr {
 				kt.fail("len of %s", ty)
@@ -1014,6 +1042,9 @@ func isErrCheck(s ast.Stmt, errName string) (bool, string) {
 	if exprName(last) == errName {
 		return true, ""
 	}
+	if ce, ok := last.(*ast.CallExpr); ok && isNewErr(exprName(ce.Fun)) {
+		return true, cur.name + "_ErrInvalidParams"
+	}
 	if ce, ok := last.(*ast.CallExpr); ok && isWrap(exprName(ce.Fun)) && len(ce.Args) >= 1 {
 		if exprName(ce.Args[0]) == errName {
 			return true, "" // the same error, annotated
@@ -1022,6 +1053,8 @@ func isErrCheck(s ast.Stmt, errName string) (bool, string) {
 	}
 	return false, ""
 }
+
+func isNewErr(fn string) bool { return fn == "fmt.Errorf" || fn == "errors.New" }
 
 func isWrap(fn string) bool {
 	return fn == "sdkerrors.Wrap" || fn == "sdkerrors.Wrapf" || fn == "errorsmod.Wrap" || fn == "errorsmod.Wrapf"
@@ -1208,6 +1241,20 @@ func (kt *kTrans) stmts(list []ast.Stmt) string {
 			kt.env[exprName(t.Lhs[0])] = tCtx
 			return kt.stmts(rest)
 		}
+		// v, ok := i.(T) on an interface{} parameter: the parameter already has type T (sigOf)
+		if ta, ok := t.Rhs[0].(*ast.TypeAssertExpr); ok && len(t.Lhs) == 2 {
+			if xty, known := kt.env[exprName(ta.X)]; known {
+				g := goTypeK(ta.Type)
+				if g == xty || g == tStr {
+					v, okn := exprName(t.Lhs[0]), exprName(t.Lhs[1])
+					kt.env[v] = xty
+					kt.env[okn] = tBool
+					return "let " + v + " := " + exprName(ta.X) + " in\nlet " + okn + " := true in\n" + kt.stmts(rest)
+				}
+			}
+			kt.fail("unsupported type assertion")
+			return "?"
+		}
 		// logger := k.Logger(ctx): logging is not modelled
 		if ce, ok := t.Rhs[0].(*ast.CallExpr); ok && kt.callName(ce.Fun) == "k.Logger" && exprName(t.Lhs[0]) == "logger" {
 			return kt.stmts(rest)
@@ -1340,6 +1387,9 @@ func (kt *kTrans) ret(results []ast.Expr) string {
 				if isWrap(fn) && len(ce.Args) >= 1 {
 					return "Err " + errConst(ce.Args[0])
 				}
+				if isNewErr(fn) {
+					return "Err " + cur.name + "_ErrInvalidParams"
+				}
 			}
 			kt.fail("unsupported error value %s", exprName(last))
 			return "?"
@@ -1457,6 +1507,20 @@ func (kt *kTrans) okUnit() string {
 	return "Ok tt"
 }
 
+// assertedType: for `func f(i interface{})` whose body starts with `v, ok := i.(T)`, the type T
+func assertedType(fd *ast.FuncDecl, param string) ast.Expr {
+	for _, st := range fd.Body.List {
+		as, ok := st.(*ast.AssignStmt)
+		if !ok || len(as.Rhs) != 1 {
+			continue
+		}
+		if ta, ok := as.Rhs[0].(*ast.TypeAssertExpr); ok && exprName(ta.X) == param && ta.Type != nil {
+			return ta.Type
+		}
+	}
+	return nil
+}
+
 func sigOf(fd *ast.FuncDecl) (fnSig, []field, string) {
 	var sig fnSig
 	var params []field
@@ -1477,6 +1541,16 @@ func sigOf(fd *ast.FuncDecl) (fnSig, []field, string) {
 			continue // other keepers handed in: their calls are primitives under the parameter's name
 		}
 		ty := goTypeK(f.Type)
+		if _, isIface := f.Type.(*ast.InterfaceType); isIface && len(f.Names) == 1 {
+			if at := assertedType(fd, f.Names[0].Name); at != nil {
+				ty = goTypeK(at)
+				if ty == tStr && (strings.Contains(strings.ToLower(fd.Name.Name), "denom")) {
+					ty = tDenom
+				} else if ty == tStr && strings.Contains(fd.Name.Name, "EntSigners") {
+					ty = tSigners
+				}
+			}
+		}
 		for _, n := range f.Names {
 			if ty == tCtx && i == 0 {
 				sig.stateful = true
@@ -1601,7 +1675,22 @@ func writeKeeper(repo, module, typesOut, keeperOut string) {
 		tf := parseFile(filepath.Join(repo, "x", cur.name, "types", tfn[0]))
 		found := false
 		for _, d := range tf.Decls {
-			if fd, ok := d.(*ast.FuncDecl); ok && fd.Body != nil && fd.Recv == nil && fd.Name.Name == tfn[1] {
+			fd, ok := d.(*ast.FuncDecl)
+			if !ok || fd.Body == nil {
+				continue
+			}
+			if fd.Recv != nil && len(fd.Recv.List) == 1 && exprName(fd.Recv.List[0].Type)+"."+fd.Name.Name == tfn[1] {
+				found = true
+				dn := strings.Replace(tfn[1], ".", "_", 1)
+				def, errs, _ := translateKeeperFunc(fd, funcs, dn)
+				if len(errs) > 0 {
+					sb.WriteString("(* NOT TRANSLATED types." + tfn[1] + ": " + strings.Join(errs, "; ") + " *)\n\n")
+				} else {
+					sb.WriteString(def + "\n")
+				}
+				continue
+			}
+			if fd.Recv == nil && fd.Name.Name == tfn[1] {
 				found = true
 				def, errs, sig := translateKeeperFunc(fd, funcs, "")
 				if len(errs) > 0 {
